@@ -157,6 +157,17 @@ func (p *Prog) VerifyFunc(fi *FuncInfo, fc *FuncContract) (res *FuncResult) {
 		}
 		s.Assume(env.assumption(cl.Expr))
 	}
+	for _, cl := range fc.Assumes {
+		env := x.newSpecEnv(s, s, fi.Pkg.PkgPath)
+		env.pos = x.curPos
+		for n, v := range paramVals {
+			if v.T != nil {
+				env.vars[n] = v
+			}
+		}
+		s.Assume(env.assumption(cl.Expr))
+		x.assumeNote("assumed at entry (not checked at call sites): " + cl.Src)
+	}
 	x.paramVals = paramVals
 	x.entry = s.Clone()
 	x.cover(s, "pre", fi.Body.Lbrace)
@@ -246,6 +257,22 @@ func (x *fnv) checkPost(st *State, fr *frame, paramVals map[string]Value, idx in
 		// do not let one postcondition help the next: check each against the same state
 		tmp := st.Clone()
 		x.oblige(tmp, "post", label, g, x.fi.Body.Rbrace, cl)
+	}
+	// closure frame: a function literal under contract may assign a variable captured from its enclosing function
+	// only if the contract declares it (modifies captured(name)): such a variable is shared by every invocation of
+	// the literal (concurrent runs included)
+	if idx == 0 && x.fi.Lit != nil {
+		declared := map[string]bool{}
+		for _, cl := range fc.Modifies {
+			collectCaptured(cl.Expr, declared)
+		}
+		for _, name := range x.capturedWrites() {
+			if declared[name] {
+				continue
+			}
+			tmp := st.Clone()
+			x.oblige(tmp, "frame", "captured."+name, c.False(), x.fi.Body.Rbrace, nil)
+		}
 	}
 	// frame: every pre-existing cell outside the modifies clauses is unchanged
 	envPre := x.newSpecEnv(x.entry.Clone(), x.entry, x.fi.Pkg.PkgPath)
@@ -506,4 +533,74 @@ func (p *Prog) VerifyLemma(lm *Lemma) (res *FuncResult) {
 	g := env.goal(lm.Clause.Expr)
 	x.oblige(s, "lemma", "", g, token.NoPos, lm.Clause)
 	return res
+}
+
+// collectCaptured gathers the names in `captured(name, ...)` targets of a modifies clause.
+func collectCaptured(ex SExpr, out map[string]bool) {
+	if call, ok := ex.(SCall); ok {
+		if fn, ok := call.Fun.(SIdent); ok {
+			if fn.Name == "captured" {
+				for _, a := range call.Args {
+					if id, ok := a.(SIdent); ok {
+						out[id.Name] = true
+					}
+				}
+				return
+			}
+			if fn.Name == "targets" {
+				for _, a := range call.Args {
+					collectCaptured(a, out)
+				}
+			}
+		}
+	}
+}
+
+// capturedWrites lists (sorted) the variables declared outside the literal under verification that its body, or a
+// literal nested in it, assigns.
+func (x *fnv) capturedWrites() []string {
+	lit := x.fi.Lit
+	seen := map[string]bool{}
+	note := func(e ast.Expr) {
+		id, ok := ast.Unparen(e).(*ast.Ident)
+		if !ok || id.Name == "_" {
+			return
+		}
+		o, ok := x.info.ObjectOf(id).(*types.Var)
+		if !ok || o.IsField() || o.Pkg() == nil || o.Parent() == o.Pkg().Scope() {
+			return
+		}
+		if o.Pos() >= lit.Pos() && o.Pos() <= lit.End() {
+			return // declared inside the literal
+		}
+		seen[o.Name()] = true
+	}
+	ast.Inspect(lit.Body, func(nd ast.Node) bool {
+		switch nd := nd.(type) {
+		case *ast.AssignStmt:
+			if nd.Tok != token.DEFINE {
+				for _, l := range nd.Lhs {
+					note(l)
+				}
+			}
+		case *ast.IncDecStmt:
+			note(nd.X)
+		case *ast.RangeStmt:
+			if nd.Tok == token.ASSIGN {
+				if nd.Key != nil {
+					note(nd.Key)
+				}
+				if nd.Value != nil {
+					note(nd.Value)
+				}
+			}
+		}
+		return true
+	})
+	var out []string
+	for n := range seen {
+		out = append(out, n)
+	}
+	sort.Strings(out)
+	return out
 }
